@@ -172,6 +172,30 @@ def disk_with_holes(rng, nx, ny, holes):
     return v, t
 
 
+def graded_disc(rings=12, seg=8, ratio=0.45):
+    """disc refined geometrically towards its centre on a shallow cone: well-shaped triangles whose areas span many orders of
+    magnitude (smallest / mean area ~ ratio^(2*rings))"""
+    v = [[0.0, 0.0, 0.0]]
+    for k in range(rings):
+        r = ratio ** (rings - 1 - k)
+        for j in range(seg):
+            a = 2 * np.pi * (j + 0.5 * (k % 2)) / seg
+            v.append([r * np.cos(a), r * np.sin(a), 0.3 * r])
+    t = [[0, 1 + j, 1 + (j + 1) % seg] for j in range(seg)]
+    for k in range(rings - 1):
+        a0 = 1 + k * seg; b0 = 1 + (k + 1) * seg
+        for j in range(seg):
+            a, a1 = a0 + j, a0 + (j + 1) % seg
+            if k % 2 == 0:
+                b, b1 = b0 + j, b0 + (j + 1) % seg
+                t += [[a, b, a1], [a1, b, b1]]
+            else:
+                b, b1 = b0 + (j + 1) % seg, b0 + (j + 2) % seg
+                bm = b0 + j
+                t += [[a, bm, b], [a, b, a1]]
+    return np.array(v), np.array(t, dtype=np.int64)
+
+
 def union(m1, m2, shift=(5.0, 0.0, 0.0)):
     v1, t1 = m1
     v2, t2 = m2
@@ -264,6 +288,7 @@ def tria_bases(rng, size="small"):
     out.append(("holes", disk_with_holes(rng, 5 if not big else 9, 5 if not big else 7, int(rng.integers(1, 3)))))
     out.append(("two-components", union(icosphere(0), grid(2, 2))))
     out.append(("two-spheres", union(icosphere(0), octahedron())))
+    out.append(("graded", graded_disc(int(rng.integers(9, 14)), int(rng.integers(6, 10)))))
     return out
 
 
@@ -274,7 +299,9 @@ def tria_stream(seed, n, size="small", classes=None, modifiers=True):
     while k < n:
         rng = rng_for(seed, "tria", rnd)
         rnd += 1
-        for name, (v, t) in tria_bases(rng, size):
+        bases = tria_bases(rng, size)
+        order = rng.permutation(len(bases))        # every prefix of the stream mixes the families
+        for name, (v, t) in [bases[i] for i in order]:
             if classes is not None and name not in classes:
                 continue
             tags = {name}
